@@ -29,7 +29,7 @@ TRUSTED = ["T3 SQL model pyvc/sqlmodel.py, cross-validated against real sqlite3 
 ASSUMPTIONS = ["A-S1 sqlite3 executes the modelled SQL subset as modelled", "A-S3 a scan without ORDER BY returns rows in rowid order = input order (assumed, not decided)",
                "ORDER BY on text columns is BINARY collation = code-point order (assumed)"]
 PRECONDITIONS = ["featuretype: non-empty string or non-empty list/tuple of strings; strand: non-empty string"]
-FUNCTIONS = ["gffutils.helpers:make_query", "gffutils.interface:FeatureDB.all_features", "gffutils.interface:FeatureDB.features_of_type",
+FUNCTIONS = ["gffutils.interface:FeatureDB._update", "gffutils.helpers:make_query", "gffutils.interface:FeatureDB.all_features", "gffutils.interface:FeatureDB.features_of_type",
              "gffutils.interface:FeatureDB.count_features_of_type", "gffutils.interface:FeatureDB.featuretypes", "gffutils.interface:FeatureDB.seqids"]
 
 VALID = list(constants._gffkeys_extra) + ["file_order", "length"]
